@@ -8,6 +8,7 @@ import (
 	"os"
 	"path/filepath"
 	"runtime"
+	"sync"
 	"unsafe"
 
 	"github.com/pion/stun/v3"
@@ -558,7 +559,90 @@ func runC01(o *out, thorough bool, r *rng, _ []string) map[string]interface{} {
 	if thorough {
 		bound, nValid, nMut, nRand, nBig = 24, 40000, 80000, 40000, 60
 	}
-	return runDecodeStreams(g, bound, nValid, nMut, nRand, nBig)
+	// a corpus for the concurrent stage: every input of the first thousands, malformed ones included
+	var corpus [][]byte
+	inner := g.emit
+	g.emit = func(data []byte, kind string) {
+		if len(corpus) < 6000 && len(data) < 2000 {
+			corpus = append(corpus, append([]byte(nil), data...))
+		}
+		inner(data, kind)
+	}
+	ex := runDecodeStreams(g, bound, nValid, nMut, nRand, nBig)
+	// total sizes around 2^16: the body length field is 16 bits, the message (header + body, or a shorter
+	// message followed by tolerated trailing bytes) can be longer than 65535 bytes
+	for _, total := range []int{65535, 65536, 65540, 65555} {
+		body := total - 20
+		if body > 65532 {
+			body = 65532
+		}
+		body = body / 4 * 4
+		var b []byte
+		for len(b)+4 <= body {
+			l := body - len(b) - 4
+			if l > 30000 {
+				l = 30000
+			}
+			l = l / 4 * 4
+			b = append(b, r.tlv(0x8030, r.bytes(l), l)...)
+		}
+		data := append(header(0x0001, len(b), r.bytes(12)), b...)
+		for len(data) < total {
+			data = append(data, 0xEE)
+		}
+		inner(data, "around-2^16")
+		small := append(header(0x0001, 8, r.bytes(12)), r.tlv(0x8030, r.bytes(4), 4)...)
+		for len(small) < total {
+			small = append(small, 0xEE)
+		}
+		inner(small, "around-2^16")
+	}
+	concurrentDecodeStage(o, corpus)
+	return ex
+}
+
+// concurrentDecodeStage: independent Messages decoded by 8 goroutines at once give what they give one at a
+// time (the decoder shares no mutable state between Messages; error paths included)
+func concurrentDecodeStage(o *out, corpus [][]byte) {
+	seq := make([]string, len(corpus))
+	one := func(data []byte) string {
+		m := new(stun.Message)
+		var err error
+		pan, _ := guarded(func() { err = stun.Decode(data, m) })
+		if pan {
+			return "panic"
+		}
+		if err != nil {
+			return "error:" + err.Error()
+		}
+		return fmt.Sprint(serDecoded(m))
+	}
+	for i, d := range corpus {
+		seq[i] = one(d)
+	}
+	var wg sync.WaitGroup
+	var mu sync.Mutex
+	bad := -1
+	for w := 0; w < 8; w++ {
+		wg.Add(1)
+		go func(w int) {
+			defer wg.Done()
+			for rep := 0; rep < 3; rep++ {
+				for i := w; i < len(corpus); i += 1 + w%3 {
+					if one(corpus[i]) != seq[i] {
+						mu.Lock()
+						bad = i
+						mu.Unlock()
+					}
+				}
+			}
+		}(w)
+	}
+	wg.Wait()
+	if bad >= 0 {
+		o.failFor("C01", "concurrent-decode-differs", "101 "+fHex(corpus[bad])+" - 0,0")
+	}
+	o.countN("concurrent-decodes", 3*8*len(corpus)/2)
 }
 
 func sizeBucket(n int) int {
